@@ -139,17 +139,21 @@ def decoded_stream_case(seed):
     rnd = random.Random(seed * 17 + 3)
     bodies = [('ai', [[1, -2, 70000]]), ('au', [[0, 2**32 - 1]]), ('aq', [[1, 65535, 258]]), ('an', [[-2, 513]]), ('ax', [[-1, 2**40]]), ('at', [[2**63]]),
               ('ad', [[1.5, -2.25]]), ('sas', ['x', ['a', 'bc']]), ('a(iq)y', [[[1, 2], [-3, 515]], 7]), ('a{su}', [{'k': 4660}]), ('v', [__import__('contracts.wire_ref', fromlist=['Variant']).Variant('ai', [258, 3])]),
-              ('ab', [[True, False, True]]), ('ay', [[1, 2, 3]]), ('u', [305419896])]
+              ('ab', [[True, False, True]]), ('ay', [[1, 2, 3]]), ('u', [305419896]),
+              # EMPTY arrays of 8-aligned elements followed by further arguments (the padding after the length word is still there)
+              ('susssasa{sv}i', ['app', 0, 'icon', 'summary', 'body', [], {}, -1]), ('sa{sv}as', ['org.e.I', {}, ['Name', 'Other']]), ('a(ii)s', [[], 'after']),
+              ('yaxu', [7, [], 9]), ('adas', [[], ['x']]), ('ata{ss}q', [[], {}, 515])]
 
     class R(protocol.BasicDBusProtocol):
         def __init__(self): self.got = []
         def methodCallReceived(self, m): self.got.append(m)
         signalReceived = methodCallReceived
     from . import wire_ref as W
-    for trial in range(12):
+    for trial in range(12 + len(bodies)):
         sent, stream = [], b''
         for k in range(rnd.randrange(2, 6)):
-            sig, vals = rnd.choice(bodies)
+            # (after the random trials: every body in turn, first in its stream)
+            sig, vals = bodies[trial - 12] if (trial >= 12 and k == 0) else rnd.choice(bodies)
             le = rnd.random() < 0.5
             stream += ref_message(rnd.choice([1, 4]), 0, k + 1, [(1, '/o'), (2, 'org.e.I'), (3, 'M'), (8, sig)], sig, vals, le)
             sent.append((sig, [W.canon(ct, v) for ct, v in zip(W.split(sig), vals)], le))
